@@ -595,6 +595,11 @@ def minimize_subcircuits(
         for output in output_labels_mapping:
             node_states[output] = _NodeState.REMOVED
 
+        # label of a replaced gate is not necessarily reused by the new subcircuit
+        for gate in subcircuit.gates:
+            if gate not in inputs_set:
+                node_states[gate] = _NodeState.REMOVED
+
         for gate in _get_internal_gates(
             circuit,
             list(input_labels_mapping.keys()),
